@@ -237,6 +237,11 @@ func GenWorld(rng *rand.Rand, o WorldOpts) *World {
 			}
 			addOwner(n)
 		}
+		if rng.Intn(3) == 0 {
+			n := join("trail", z)
+			b.txtTrailing(n)
+			addOwner(n)
+		}
 		// zone-wide wildcard at the apex
 		if rng.Intn(3) == 0 {
 			b.addrLine(z, true, locOf(), b.randIP(), 0)
